@@ -155,7 +155,7 @@ def ks_reference(xyz, res):
 
     Returns dict with
       H        (n_res,3) documented hydrogen position (nan where undefined: first residue of a chain, previous
-               residue incomplete, residue itself incomplete)
+               residue without C or O, residue itself incomplete)
       E        (n_res, n_res) E[acceptor i, donor j] (nan where undefined)
       tolE     same shape: float32 error model of E
       ca       (n_res,n_res) CA-CA distance
@@ -164,7 +164,9 @@ def ks_reference(xyz, res):
     full = np.array([all(r[k] >= 0 for k in ("N", "CA", "C", "O")) for r in res])
     H = np.full((nr, 3), np.nan)
     for j in range(1, nr):
-        if full[j] and full[j - 1] and res[j]["chain"] == res[j - 1]["chain"]:
+        # the preceding residue only has to have its carbonyl (atoms named C and O), e.g. an acetyl cap or a residue
+        # with unresolved N / CA still defines the direction
+        if full[j] and res[j - 1]["C"] >= 0 and res[j - 1]["O"] >= 0 and res[j]["chain"] == res[j - 1]["chain"]:
             co = xyz[res[j - 1]["C"]] - xyz[res[j - 1]["O"]]
             H[j] = xyz[res[j]["N"]] + 0.1 * co / np.linalg.norm(co)
     E = np.full((nr, nr), np.nan)
